@@ -633,6 +633,13 @@ class Phase(Angle):
             raise ValueError("An `out` argument is not yet supported.")
         return self._take_along_axis(self.argmax(axis), axis, keepdims)
 
+    def __array_function__(self, function, types, args, kwargs):
+        # numpy.ptp, numpy.sort and numpy.argsort do not call the methods
+        # below but work on single doubles; use the full precision instead.
+        if function in {np.ptp, np.sort, np.argsort} and args and args[0] is self:
+            return getattr(self, function.__name__)(*args[1:], **kwargs)
+        return super().__array_function__(function, types, args, kwargs)
+
     def ptp(self, axis=None, out=None, keepdims=False):
         """Peak to peak (maximum - minimum) along a given axis.
 
